@@ -4,6 +4,7 @@ import (
 	"crypto/sha256"
 	"encoding/hex"
 	"fmt"
+	"strings"
 	"time"
 
 	"github.com/lidofinance/dc4bc/fsm/types/requests"
@@ -122,7 +123,7 @@ func exploreDKG(c *Ctx, n, t int, hooks dkgHooks, maxStates int) (states, transi
 }
 
 func checkC05(c *Ctx) {
-	c.Rule = "breadth-first exploration of the real BaseNodeService.ProcessMessage (node 0, in-memory state store) over the public event alphabet {init, confirm, decline, commit, deal, response, master key, the four error reports, signing proposal} x participant ids {0..n-1, n, 99} x variants {valid, late-timestamped, empty payload, mismatching key, duplicate (= same event again)} to a fixpoint of (public projection of the round, monitor state), for every (n,t) in the tier's bound. History monitors M1 (exactly-once, in phase order, by invited participants; signing-ready only after all five phases), M2 (cancelled never becomes signing-ready), M3 (rejected => round, operation pool and signature store unchanged), M4 (decline / error / late / differing key accepted => cancelled), M5 (a well-formed timely failure report or decline by a participant whose contribution of the running phase is awaited is not refused). The alphabet also holds late-stamped messages of uninvited ids and same-instant duplicates with other content; a second exploration runs on a node with the daemon's --skip_comm_keys_verification on (the round's own rules decide alone). distinct = distinct abstract states reached"
+	c.Rule = "breadth-first exploration of the real BaseNodeService.ProcessMessage (node 0, in-memory state store) over the public event alphabet {init, confirm, decline, commit, deal, response, master key, the four error reports, signing proposal} x participant ids {0..n-1, n, 99} x variants {valid, late-timestamped, empty payload, mismatching key, duplicate (= same event again)} to a fixpoint of (public projection of the round, monitor state), for every (n,t) in the tier's bound. History monitors M1 (exactly-once, in phase order, by invited participants; signing-ready only after all five phases), M2 (cancelled never becomes signing-ready), M3 (rejected => round, operation pool and signature store unchanged), M4 (decline / error / late / differing key accepted => cancelled), M5 (a well-formed timely failure report or decline by a participant whose contribution of the running phase is awaited is not refused). The alphabet also holds late-stamped messages of uninvited ids and same-instant duplicates with other content; a second exploration runs on a node with the daemon's --skip_comm_keys_verification on (the round's own rules decide alone). In every persisted state every *_internal event delivered to the restored round from outside must be refused. distinct = distinct abstract states reached"
 	c.Assumptions = []string{"MemState substituted for LevelDB (same Get/Set semantics)", "explored from one node's point of view: deals are the per-recipient ones plus the self-confirmation", "messages are harness-built and signed with the claimed participant's registered key (unknown ids are claimed by a legitimate sender)", "a missing round and a freshly created idle round are treated as the same round state (byte-exactness of rejected input is C18's subject)"}
 	maxN := c.Pick(3, 4)
 	c.Exhaustive = true
@@ -262,6 +263,28 @@ func checkC05(c *Ctx) {
 				c.Distinct(fmt.Sprintf("n%d t%d %v %s", n, t, unverified, oracle.Hash(res.ProjA)))
 				return nm, true
 			}}
+			// the round's state machine itself, in every persisted state the exploration reaches: the events the
+			// machines use among themselves (names ending in _internal) are not for callers - delivered from
+			// outside (state_machines.FSMInstance.Do on the restored round) they must be refused
+			hooks.onState = func(ex *explorer, s *exState) {
+				bz := RawDump(ex.Node, ex.Round)
+				if bz == nil {
+					return
+				}
+				for _, name := range internalEvents {
+					inst, err := safeFromDump(bz)
+					if err != nil {
+						return
+					}
+					out := safeDo(inst, name, requests.DefaultRequest{CreatedAt: now()})
+					c.Eval(1)
+					if out.OK {
+						c.Violate("C05/internal-event-accepted-from-outside:"+name, fmt.Sprintf("in %s the round's state machine accepts %s from a caller and moves to %s", s.Name, name, out.State), map[string]interface{}{"n": n, "t": t, "path": s.Path(), "state": s.Name, "event": name})
+					} else {
+						c.Add("internal_events_refused_from_outside", 1)
+					}
+				}
+			}
 			if unverified {
 				hooks.setup = func(ex *explorer) {
 					if sk, ok := ex.Node.Svc.(interface{ SetSkipCommKeysVerification(bool) }); ok {
@@ -287,3 +310,7 @@ func checkC05(c *Ctx) {
 		}
 	})
 }
+
+
+// internalEvents: every event name of the three machines that ends in _internal.
+var internalEvents = strings.Fields("event_dkg_commits_confirm_canceled_by_error_internal event_dkg_commits_confirm_canceled_by_timeout_internal event_dkg_commits_confirmed_internal event_dkg_commits_validate_internal event_dkg_deals_confirm_canceled_by_error_internal event_dkg_deals_confirm_canceled_by_timeout_internal event_dkg_deals_confirmed_internal event_dkg_deals_validate_internal event_dkg_master_key_confirm_canceled_by_error_internal event_dkg_master_key_confirm_canceled_by_timeout_internal event_dkg_master_key_confirmed_internal event_dkg_master_key_required_internal event_dkg_master_key_validate_internal event_dkg_response_confirm_canceled_by_error_internal event_dkg_response_confirm_canceled_by_timeout_internal event_dkg_responses_confirmed_internal event_dkg_responses_validate_internal event_signing_partial_signs_await_cancel_by_timeout_internal event_signing_partial_signs_await_sign_cancel_by_error_internal event_signing_partial_signs_confirmed_internal")
